@@ -38,6 +38,20 @@ Definition ndt_add_std (a : DateTime.ndt) (dsecs dnanos : Z) : R DateTime.ndt :=
 Definition ndt_sub_std (a : DateTime.ndt) (dsecs dnanos : Z) : R DateTime.ndt :=
   let* rhs := unwrap (from_std dsecs dnanos) in unwrap_r (DateTime.ndt_checked_sub_signed a rhs).
 
+(** NaiveDate::and_hms* (src/naive/date/mod.rs).
+    and_hms*_opt:  let time = try_opt!(NaiveTime::from_hms*_opt(..)); Some(self.and_time(time))
+    and_hms* (deprecated):  expect(self.and_hms*_opt(..), "invalid time") *)
+Definition nd_and_time_opt (d : Z) (rt : R (option ntime)) : R (option DateTime.ndt) :=
+  let* ot := rt in Val (match ot with Some t => Some (DateTime.mk_ndt d t) | None => None end).
+Definition nd_and_hms_opt (d h m s : Z) := nd_and_time_opt d (from_hms_opt h m s).
+Definition nd_and_hms_milli_opt (d h m s x : Z) := nd_and_time_opt d (from_hms_milli_opt h m s x).
+Definition nd_and_hms_micro_opt (d h m s x : Z) := nd_and_time_opt d (from_hms_micro_opt h m s x).
+Definition nd_and_hms_nano_opt (d h m s x : Z) := nd_and_time_opt d (from_hms_nano_opt h m s x).
+Definition nd_and_hms (d h m s : Z) : R DateTime.ndt := unwrap_r (nd_and_hms_opt d h m s).
+Definition nd_and_hms_milli (d h m s x : Z) : R DateTime.ndt := unwrap_r (nd_and_hms_milli_opt d h m s x).
+Definition nd_and_hms_micro (d h m s x : Z) : R DateTime.ndt := unwrap_r (nd_and_hms_micro_opt d h m s x).
+Definition nd_and_hms_nano (d h m s x : Z) : R DateTime.ndt := unwrap_r (nd_and_hms_nano_opt d h m s x).
+
 Definition run (op : bytes) (args : list val) : val :=
   let u32_3 (f : Z -> Z -> Z -> val) := match args with
      | [a; b; c] => match arg_u32 a, arg_u32 b, arg_u32 c with Some x, Some y, Some z => f x y z | _, _, _ => VBad end
@@ -64,6 +78,14 @@ Definition run (op : bytes) (args : list val) : val :=
      | [a; b; c] => match DateTime.dec_ndt a, arg_u64 b, arg_u32 c with
                     | Some x, Some s, Some n => if n <? 1000000000 then f x s n else VBad
                     | _, _, _ => VBad end
+     | _ => VBad end in
+  let d_u3 (f : Z -> Z -> Z -> Z -> val) := match args with
+     | [dv; a; b; c] => match DateTime.dec_date dv, arg_u32 a, arg_u32 b, arg_u32 c with
+                        | Some d, Some x, Some y, Some z => f d x y z | _, _, _, _ => VBad end
+     | _ => VBad end in
+  let d_u4 (f : Z -> Z -> Z -> Z -> Z -> val) := match args with
+     | [dv; a; b; c; e] => match DateTime.dec_date dv, arg_u32 a, arg_u32 b, arg_u32 c, arg_u32 e with
+                           | Some d, Some x, Some y, Some z, Some w => f d x y z w | _, _, _, _, _ => VBad end
      | _ => VBad end in
   let n_d (f : DateTime.ndt -> td -> val) := match args with
      | [a; b] => match DateTime.dec_ndt a, dec_td b with Some x, Some d => f x d | _, _ => VBad end | _ => VBad end in
@@ -128,6 +150,11 @@ Definition run (op : bytes) (args : list val) : val :=
     | [a; b] => match arg_u32 a, arg_u32 b with
                 | Some s, Some n => val_of_R enc_time (unwrap (from_num_seconds_from_midnight_opt s n)) | _, _ => VBad end
     | _ => VBad end
+  (* the deprecated panicking NaiveDate::and_hms* *)
+  else if op_is op "ndt.phms" then d_u3 (fun d h m s => val_of_R DateTime.enc_ndt (nd_and_hms d h m s))
+  else if op_is op "ndt.phms_milli" then d_u4 (fun d h m s x => val_of_R DateTime.enc_ndt (nd_and_hms_milli d h m s x))
+  else if op_is op "ndt.phms_micro" then d_u4 (fun d h m s x => val_of_R DateTime.enc_ndt (nd_and_hms_micro d h m s x))
+  else if op_is op "ndt.phms_nano" then d_u4 (fun d h m s x => val_of_R DateTime.enc_ndt (nd_and_hms_nano d h m s x))
   (* impl Add<Duration> / Sub<Duration> for NaiveDateTime (also behind AddAssign / SubAssign):
        let rhs = TimeDelta::from_std(rhs).expect(..); self.checked_add_signed(rhs).expect(..) *)
   else if op_is op "ndt.addstd" then n_s (fun a s n => val_of_R DateTime.enc_ndt (ndt_add_std a s n))
